@@ -54,13 +54,149 @@ impl Prop for Unsol {
     }
 }
 
+
+// ---------------------------------------------------------------------------------------------
+// long time constants: the retry delay is a plain Duration, hours are legal
+
+#[derive(Clone, Debug, serde::Serialize, serde::Deserialize)]
+pub struct DelayCase {
+    /// configured unsolicited retry delay in ms
+    pub delay_ms: u64,
+    pub retries: u8,
+    /// confirm timeout in ms (1 ms ..= 1 h is what the configuration accepts)
+    pub confirm_ms: u32,
+}
+
+pub struct LongDelays;
+
+impl Prop for LongDelays {
+    type Case = DelayCase;
+    const ID: &'static str = "C14";
+    const NAME: &'static str = "long_delays";
+    fn rule() -> &'static str {
+        "unsolicited retry delays from 1 ms to 48 h (around one hour in particular) and confirm timeouts up to one hour, 0-2 retries: an unsolicited response with an event is left unconfirmed until the series fails; the instant of every transmission is exact (virtual clock); oracle: the retries come one confirm timeout apart, and the next series - same event, next sequence number - starts no sooner than the configured retry delay after the failure, and not later than that plus one slice of the observation (2% of the delay); every case is non-trivial"
+    }
+    fn cases(tier: Tier) -> u32 {
+        match tier {
+            Tier::Quick => 2_000,
+            Tier::Thorough => 100_000,
+        }
+    }
+    fn strategy(_tier: Tier) -> BoxedStrategy<DelayCase> {
+        let hour = 3_600_000u64;
+        (
+            prop_oneof![
+                Just(1u64), Just(150), Just(5_000), Just(hour - 1), Just(hour), Just(hour + 1), Just(2 * hour), Just(48 * hour),
+                1u64..10_000, hour..3 * hour
+            ],
+            0u8..3,
+            prop_oneof![Just(100u32), Just(5_000), Just(3_600_000), 1u32..3_600_000],
+        )
+            .prop_map(|(delay_ms, retries, confirm_ms)| DelayCase { delay_ms, retries, confirm_ms })
+            .boxed()
+    }
+    fn run(case: &DelayCase) -> CaseOut {
+        let rt = runtime();
+        rt.block_on(run_delay(case))
+    }
+}
+
+async fn run_delay(case: &DelayCase) -> CaseOut {
+    use crate::outstation::database::UpdateOptions;
+    use crate::verif::props::ost::*;
+    use crate::verif::rig::outstation::*;
+    use crate::verif::wire::app::func;
+    let mut out = CaseOut::default();
+    out.nontrivial = true;
+    let mut cfg = OutConfig::default();
+    cfg.unsolicited = true;
+    cfg.confirm_timeout_ms = case.confirm_ms;
+    cfg.max_unsol_retries = Some(case.retries);
+    cfg.unsol_retry_delay_ms = case.delay_ms.min(u32::MAX as u64) as u32;
+    cfg.unsol_retry_delay_long_ms = Some(case.delay_ms);
+    cfg.keep_alive_ms = None;
+    let mut rig = OutRig::start(cfg, AppBehaviour::default()).await;
+    rig.db(|db| {
+        add_point(db, &PointSpec { ty: 0, index: 0, class: 1, svar: 2, evar: 1 });
+    });
+    rig.settle().await;
+    confirm_null_unsol(&mut rig).await;
+    rig.send(&enable_unsol(1, true, &[1, 2, 3]));
+    rig.settle().await;
+    let _ = rig.take_tx();
+    rig.db(|db| update_point(db, &unique_rec(0, 0, 1, 1, 0), UpdateOptions::detect_event()));
+    rig.settle().await;
+    // every unsolicited transmission from now on: (t, seq, bytes)
+    let mut seen: Vec<(u64, u8, Vec<u8>)> = vec![];
+    let mut absorb = |rig: &mut OutRig, seen: &mut Vec<(u64, u8, Vec<u8>)>| {
+        for t in rig.take_tx() {
+            if let Tx::Fragment { t, bytes, .. } = t {
+                if bytes.len() >= 2 && bytes[1] == func::UNSOLICITED_RESPONSE {
+                    seen.push((t, bytes[0] & 0x0F, bytes));
+                }
+            }
+        }
+    };
+    absorb(&mut rig, &mut seen);
+    if seen.len() != 1 {
+        out.label("no_unsolicited_response");
+        return out;
+    }
+    let t0 = seen[0].0;
+    let ct = case.confirm_ms as u64;
+    // let the series run out: (retries + 1) confirm timeouts
+    for _ in 0..=case.retries {
+        rig.advance(ct).await;
+        absorb(&mut rig, &mut seen);
+    }
+    let first_seq = seen[0].1;
+    let series: Vec<&(u64, u8, Vec<u8>)> = seen.iter().filter(|x| x.1 == first_seq).collect();
+    for (k, x) in series.iter().enumerate() {
+        if x.0 != t0 + k as u64 * ct || x.2 != series[0].2 {
+            out.fail(Fail::new("U4-retry-timing", format!("transmission #{k} of the series at t={} (series began at t={t0}, confirm timeout {ct} ms), identical = {}", x.0, x.2 == series[0].2)));
+            return out;
+        }
+    }
+    if series.len() > 1 + case.retries as usize {
+        out.fail(Fail::new("U4-too-many-retries", format!("{} transmissions with max_unsolicited_retries = {}", series.len(), case.retries)));
+        return out;
+    }
+    let tf = t0 + series.len() as u64 * ct;
+    // watch for the next series in slices of 2% of the delay (at least 1 ms)
+    let slice = (case.delay_ms / 50).max(1);
+    let mut next: Option<u64> = seen.iter().find(|x| x.1 != first_seq).map(|x| x.0);
+    let mut waited = 0u64;
+    while next.is_none() && waited < case.delay_ms + 2 * slice {
+        rig.advance(slice).await;
+        waited += slice;
+        absorb(&mut rig, &mut seen);
+        next = seen.iter().find(|x| x.1 != first_seq).map(|x| x.0);
+    }
+    match next {
+        None => out.fail(Fail::new("U8-no-new-series", format!("the series failed at t={tf}; {} ms later (retry delay {} ms) no new unsolicited series has started although the event is still buffered and its class enabled", waited, case.delay_ms))),
+        Some(t) => {
+            if t < tf + case.delay_ms {
+                out.fail(
+                    Fail::new("U5-retry-delay", format!("the series failed at t={tf}; the next one started at t={t}, i.e. after {} ms, the configured retry delay is {} ms", t - tf, case.delay_ms))
+                        .with_sig("C14 U5-retry-delay long".to_string()),
+                );
+            }
+        }
+    }
+    if let Some(f) = rig.task_failure.take() {
+        out.fail(f);
+    }
+    out
+}
+
 pub fn run<C: Codec>(tier: Tier) -> i32 {
     let mut ctx = Ctx::<C>::new("C14", tier);
     ctx.assumptions.push("a series with fewer retries than the limit is not a violation ('up to'); events exactly at a deadline instant are not judged; ENABLE/DISABLE take effect when their reply is observed".into());
     ctx.run::<Unsol>();
+    ctx.run::<LongDelays>();
     ctx.finish()
 }
 
 pub fn replay<C: Codec>(text: &str, known: &[Known]) -> Option<i32> {
-    replay_file::<C, Unsol>(text, known)
+    replay_file::<C, Unsol>(text, known).or_else(|| replay_file::<C, LongDelays>(text, known))
 }
